@@ -193,16 +193,19 @@ def compact(obs):
     return out[:most]
 
 
-def build(parts, obs, composed=None):
-    """chi filter for the description (input construction; the only place that touches chi)."""
+def build(parts, obs, composed=None, dtype=np.float64, as_list=False):
+    """chi filter for the description (input construction; the only place that touches chi).
+    dtype / as_list: type of the arrays handed to the constructors (whole-number data as int arrays / nested lists)."""
     import chi
     obs = np.asarray(obs, dtype=float)
     fs = []
     given = []
     j0 = 0
     for p in parts:
-        o = np.ascontiguousarray(obs[:, :, j0:j0 + p['nt']].copy(), dtype=np.float64)   # the user's own array
+        o = np.ascontiguousarray(obs[:, :, j0:j0 + p['nt']].copy(), dtype=dtype)   # the user's own array
         given.append((o, o.copy()))
+        if as_list:
+            o = o.tolist()
         cls = getattr(chi, CLASS_NAMES[p['kind']])
         fs.append(cls(o, n_kernels=p['nk']) if p['kind'] == 'gmix' else cls(o))
         j0 += p['nt']
